@@ -607,6 +607,9 @@ spec fn agg_is(s: Seq<HL>, r: MerkleHash) -> bool { if s.len() == 0 { is_zero(r)
             Ok(h) => if chunks@.len() == 0 { is_zero(h) } else { h == salted(root(cview(chunks@)).h, *salt) },
             Err(_) => true,
         },
+        // taken from the property, not from the code: "different salts give different hashes for the same bytes" needs the
+        // hash of EVERY chunk list to be a salted value; the non-empty case is the clause above, this is the empty file
+        /*@C03*/ (chunks@.len() == 0 && r is Ok) ==> exists|base: MerkleHash| r->Ok_0 == #[trigger] salted(base, *salt),
 //@ loop 1
         invariant mdb.inv(), len_ok(cview(chunks@)), vx_v@.len() == vx_i,
             forall|j: int| 0 <= j < vx_i ==> (#[trigger] vx_v@[j]).hl() == cview(chunks@)[j],
